@@ -29,16 +29,23 @@ type chunkReader struct {
 	eofWithData bool
 	// gaps > 0: the source is a live feed that pauses: between chunks it reports `gaps`
 	// consecutive transient end-of-file results (tolerated when the configuration says so)
+	// gaps == 9: a bursty live source - one transient end-of-file after EVERY chunk
 	gaps    int
 	pending int
 	served  bool
+	gapped  bool
 }
 
 func (c *chunkReader) Read(p []byte) (int, error) {
 	if len(c.data) == 0 {
 		return 0, io.EOF
 	}
-	if c.gaps > 0 && c.served && (c.k == 2 || (c.gaps == 1 && c.k%5 == 0)) {
+	if c.gaps == 9 && c.served && !c.gapped {
+		c.gapped = true
+		return 0, io.EOF
+	}
+	c.gapped = false
+	if c.gaps > 0 && c.gaps != 9 && c.served && (c.k == 2 || (c.gaps == 1 && c.k%5 == 0)) {
 		if c.pending < c.gaps {
 			c.pending++
 			return 0, io.EOF
@@ -264,7 +271,7 @@ func init() {
 	opTable["pipe"] = runPipe
 	props["C09"] = &Prop{
 		Rule: "op pipe <T> <stream> chunks= caps= delays= procs=: the real file_handler.Handle + handler.HandleMessages + appcore.HandleMessagesUntilEOF on mixed streams (frames, corrupted frames, junk, " +
-			"stray 0xD3, truncated tails) read through chunked readers (chunk sizes 1..4096, pauses), 1..4 consumers with capacities 0/1/2/64, latencies 0..2 ms, nil entries, GOMAXPROCS 1/2/4/16; " +
+			"stray 0xD3, truncated tails) read through chunked readers (chunk sizes 1..4096, pauses, last bytes with or without the end-of-file error, one or two transient end-of-file results between chunks, a bursty source with one after every chunk - hundreds in one call), 1..4 consumers with capacities 0/1/2/64, latencies 0..2 ms, nil entries, GOMAXPROCS 1/2/4/16; " +
 			"every non-nil consumer's (type, raw) sequence is compared with sequential framing of the same bytes by the real code and with the model's segmentation; goroutines are counted before/after; " +
 			"non-trivial = at least one non-nil consumer and a non-empty stream; distinct = distinct op line",
 		Gen: func(c *Ctx, emit func(class, op string)) {
@@ -302,6 +309,15 @@ func init() {
 				}
 				emit(class, fmt.Sprintf("pipe %s %s chunks=%s caps=%s delays=%s procs=%d eof=%s", defaultStart, hx(bs), strings.Join(chunks, ","),
 					strings.Join(caps, ","), strings.Join(delays, ","), []int{1, 2, 4, 16}[r.Intn(4)], eof))
+			}
+			// a bursty live source: hundreds of single transient end-of-file results in one call, each
+			// followed by more data
+			for i := 0; i < c.N(3, 20); i++ {
+				bs := pipeStream(c)
+				for len(bs) < 400 {
+					bs = append(bs, pipeStream(c)...)
+				}
+				emit("bursty-source-many-gaps", fmt.Sprintf("pipe %s %s chunks=%d caps=0,2 delays=0,0 procs=4 eof=bare gaps=9", defaultStart, hx(bs), 1+r.Intn(3)))
 			}
 			emit("empty", fmt.Sprintf("pipe %s - chunks=1 caps=0,nil delays=0 procs=2", defaultStart))
 		},
